@@ -6,7 +6,7 @@ open Incrgen
 
 type case = Incrgen.case
 let id = "C04"
-let rule = "the streams of C03 under the configurations with resume_from_break_point on (3 configurations: thresholds 2/3/100), incl. resumed \
+let rule = "the streams of C03 under the configurations with resume_from_break_point on (4 configurations: thresholds 2/3/100, one with target.db set), incl. resumed \
 start databases and ticker flushes; for every observed flush group: wrapper shape, run id / version exactly on the first group per database, \
 stored offset = source offset after the group's last command, offsets strictly increasing, no barrier inside a group, group size <= sender.count; \
 non-trivial = at least two groups; distinct by wire line"
